@@ -385,6 +385,6 @@ MANIFEST = dict(
         "decided."),
     level_note="Trusted: python ast; softmax(-inf) = 0 weight. F9 (bias_WK/bias_WV validated from bias_WQ) was found by G3 "
                "and repaired.",
-    technique="static analysis: reaching-definition (def-use) rules, dimension/size table agreement, argcheck idiom lint, argument binding",
+    technique="static analysis: reaching-definition (def-use) rules, dimension/size table agreement (softmax axis evaluated as a function of dim), argcheck idiom lint, argument binding",
     design_ref="DESIGN.md section 4 C20",
 )
